@@ -43,4 +43,19 @@ theorem check_children (n : Node) (np ts : Int) (b : Nat) (h : n.check np ts b =
   simp only [Bool.and_eq_true, decide_eq_true_eq, hge, if_true] at h
   omega
 
+
+theorem sub_one_inf (s : Bool) : (one - F64.inf s : F64) = .inf (!s) := by
+  show F64.sub one (.inf s) = _
+  rfl
+/-- a product with a non-finite factor is not finite -/
+theorem mul_nonfinite (a y : F64) (hy : y.isFinite = false) : (a * y).isFinite = false := by
+  show (F64.mul a y).isFinite = false
+  cases y with
+  | nan => cases a <;> rfl
+  | inf s => cases a with
+    | nan => rfl
+    | inf t => rfl
+    | fin sa m e => simp only [F64.mul]; split <;> rfl
+  | fin s m e => simp [F64.isFinite] at hy
+
 end GeoVerif.Proofs.ErrContract
